@@ -90,39 +90,7 @@ func factsC05(r *Repo) []Fact {
 	run, runFile := cp.Func("runner", "run")
 	where := "compose/" + runFile + ": runner.run"
 
-	// --- createTasksForwardsStaleCP ---
-	// createTasks hands forwardCheckPoint(ctx) to every new task; the ctx of a resumed run carries the
-	// checkpoint (explicitly via setCheckPointToCtx(ctx, cp) at top level, inherited from the parent in a
-	// sub-graph) unless it is cleared after restoreTasks in both resume branches.
-	ct, ctFile := cp.Func("runner", "createTasks")
-	switch {
-	case run == nil || ct == nil:
-		out = append(out, unknownFact("createTasksForwardsStaleCP", "Bool", "true", where, "runner.run or runner.createTasks not found"))
-	default:
-		forwards := c05HasCall(ct.Body, "forwardCheckPoint")
-		sites, cleared := 0, 0
-		for _, b := range c05Blocks(run.Body) {
-			for i, s := range b.List {
-				if !c05StmtAssignsCall(s, "r.restoreTasks") {
-					continue
-				}
-				sites++
-				for _, later := range b.List[i+1:] {
-					if c05IsCtxCleared(later) {
-						cleared++
-						break
-					}
-				}
-			}
-		}
-		if sites == 0 {
-			out = append(out, unknownFact("createTasksForwardsStaleCP", "Bool", "true", where, "no `… = r.restoreTasks(…)` statement found in runner.run"))
-		} else {
-			out = append(out, boolFact("createTasksForwardsStaleCP", forwards && cleared < sites,
-				where+": "+c05Itoa(sites)+" resume branch(es) call restoreTasks, "+c05Itoa(cleared)+" clear the ctx checkpoint afterwards (`ctx = setCheckPointToCtx(ctx, nil)`); compose/"+ctFile+": createTasks calls forwardCheckPoint: "+c05Btoa(forwards)))
-			out = append(out, natFact("resumeBranches", sites, where+": statements `nextTasks, err = r.restoreTasks(…)`"))
-		}
-	}
+	out = append(out, c05StaleFacts(cp, run, where)...)
 
 	// --- handleInterruptWithSubGraphAndRerunNodes ---
 	h, hFile := cp.Func("runner", "handleInterruptWithSubGraphAndRerunNodes")
@@ -321,6 +289,46 @@ func factsC05(r *Repo) []Fact {
 			out = append(out, boolFact("stepCounterRestartsOnResume", zero && before, where+": `for step := 0; ; step++` follows the resume branches"))
 		}
 	}
+	return out
+}
+
+// c05StaleFacts: does the loop's ctx still carry the checkpoint after restoreTasks (so that createTasks ->
+// forwardCheckPoint re-applies nested checkpoints to tasks created later)?
+func c05StaleFacts(cp *Pkg, run *ast.FuncDecl, where string) []Fact {
+	var out []Fact
+	// createTasks hands forwardCheckPoint(ctx) to every new task; the ctx of a resumed run carries the
+	// checkpoint (explicitly via setCheckPointToCtx(ctx, cp) at top level, inherited from the parent in a
+	// sub-graph) unless it is cleared after restoreTasks in both resume branches.
+	ct, ctFile := cp.Func("runner", "createTasks")
+	switch {
+	case run == nil || ct == nil:
+		out = append(out, unknownFact("createTasksForwardsStaleCP", "Bool", "true", where, "runner.run or runner.createTasks not found"))
+	default:
+		forwards := c05HasCall(ct.Body, "forwardCheckPoint")
+		sites, cleared := 0, 0
+		for _, b := range c05Blocks(run.Body) {
+			for i, s := range b.List {
+				if !c05StmtAssignsCall(s, "r.restoreTasks") {
+					continue
+				}
+				sites++
+				for _, later := range b.List[i+1:] {
+					if c05IsCtxCleared(later) {
+						cleared++
+						break
+					}
+				}
+			}
+		}
+		if sites == 0 {
+			out = append(out, unknownFact("createTasksForwardsStaleCP", "Bool", "true", where, "no `… = r.restoreTasks(…)` statement found in runner.run"))
+		} else {
+			out = append(out, boolFact("createTasksForwardsStaleCP", forwards && cleared < sites,
+				where+": "+c05Itoa(sites)+" resume branch(es) call restoreTasks, "+c05Itoa(cleared)+" clear the ctx checkpoint afterwards (`ctx = setCheckPointToCtx(ctx, nil)`); compose/"+ctFile+": createTasks calls forwardCheckPoint: "+c05Btoa(forwards)))
+			out = append(out, natFact("resumeBranches", sites, where+": statements `nextTasks, err = r.restoreTasks(…)`"))
+		}
+	}
+
 	return out
 }
 
